@@ -348,6 +348,73 @@ func c06Loop(fn, un *ssa.Function) (bool, string) {
 		}
 	}
 	if !condOK {
+		// bottom-tested form: the remainder just computed, rest[processed:], is measured; the loop goes round
+		// again exactly when it is not empty and is left (other than by an error return) only when it is empty
+		var next *ssa.Slice
+		for _, e := range rest.Edges {
+			if sl, ok := e.(*ssa.Slice); ok && sl.X == ssa.Value(rest) {
+				next = sl
+			}
+		}
+		hdr := rest.Block()
+		inLoopB := map[*ssa.BasicBlock]bool{hdr: true}
+		var work []*ssa.BasicBlock
+		for _, pr := range hdr.Preds {
+			if hdr.Dominates(pr) {
+				work = append(work, pr)
+			}
+		}
+		for len(work) > 0 {
+			b := work[len(work)-1]
+			work = work[:len(work)-1]
+			if inLoopB[b] {
+				continue
+			}
+			inLoopB[b] = true
+			work = append(work, b.Preds...)
+		}
+		if next != nil {
+			for _, ref := range *next.Referrers() {
+				cl, ok := ref.(*ssa.Call)
+				if !ok {
+					continue
+				}
+				if bi, ok := cl.Common().Value.(*ssa.Builtin); !ok || bi.Name() != "len" {
+					continue
+				}
+				for _, r2 := range *cl.Referrers() {
+					b, ok := r2.(*ssa.BinOp)
+					if !ok || !isConstInt(b.Y, 0) || (b.Op != token.EQL && b.Op != token.NEQ && b.Op != token.GTR) {
+						continue
+					}
+					for _, r3 := range *b.Referrers() {
+						iff, ok := r3.(*ssa.If)
+						if !ok || !inLoopB[iff.Block()] {
+							continue
+						}
+						nonEmpty, empty := iff.Block().Succs[0], iff.Block().Succs[1]
+						if b.Op == token.EQL {
+							nonEmpty, empty = empty, nonEmpty
+						}
+						if inLoopB[nonEmpty] && !inLoopB[empty] {
+							condOK = true
+						}
+					}
+				}
+			}
+		}
+		// every other way round the loop would skip the test: the latch must be that branch
+		if condOK {
+			for _, pr := range hdr.Preds {
+				if hdr.Dominates(pr) {
+					if _, isIf := pr.Instrs[len(pr.Instrs)-1].(*ssa.If); !isIf && len(pr.Preds) != 1 {
+						condOK = false
+					}
+				}
+			}
+		}
+	}
+	if !condOK {
 		return false, "the loop is not controlled by len(rest) != 0"
 	}
 	appOK := c06Appended(ex0, rest.Block())
